@@ -65,6 +65,18 @@ func c04D1() []*gen.Node {
 
 var c04Depth1 = c04D1()
 
+var c04CmpAll = func() []*gen.Node {
+	var out []*gen.Node
+	for _, a := range c04Leaves {
+		for _, b := range c04Leaves {
+			for _, op := range cmpNOps {
+				out = append(out, gen.Bin(op, a, b))
+			}
+		}
+	}
+	return out
+}()
+
 const c04Block = 50
 
 func c04OneSided() int { return len(c04Depth1) * len(c04Leaves) * len(c04Ops) * 2 }
@@ -136,6 +148,13 @@ func (k c04) Run(c *rt.Ctx) {
 	idx := c.Case
 	if idx%40 == 17 {
 		k.aggregateField(c)
+	}
+	if idx%40 == 23 {
+		// every comparison of two leaves (an integer and a float of equal value among them), exhaustively
+		for i := (idx / 40) * c04Block; i < (idx/40+1)*c04Block && i < len(c04CmpAll); i++ {
+			k.judge(c, c04CmpAll[i], "constbin", i%10 == 0)
+			c.Rec.Inc("leaf_comparisons")
+		}
 	}
 	nd1 := len(c04Depth1)/c04Block + 1
 	if idx < nd1 {
@@ -342,7 +361,9 @@ func c04Random(r *rt.Rand) (*gen.Node, string) {
 			gen.Call("substr", gen.Str("hello"), gen.Int(2), gen.Int(4)), gen.Call("substr", gen.Str("ab"), gen.Int(1), gen.Int(2)), gen.Call("substr", gen.Str("hello"), gen.Int(1), gen.Int(5)),
 			gen.Call("substr", gen.Str("hello"), gen.Int(0), gen.Int(3)), gen.Call("substr", gen.Str("hello"), gen.Int(4), gen.Int(9)), gen.Call("substr", gen.Str("hello"), gen.Int(5), gen.Int(1)),
 			gen.Call("str", gen.Str("ab")), gen.Call("str", gen.Bin("+", gen.Str("a"), gen.Str("b"))), gen.Call("str", gen.Call("lower", gen.Str("B"))), gen.Call("strlen", gen.Call("str", gen.Str("xyz"))), gen.Call("upper", gen.Call("str", gen.Str("k"))),
-			gen.Call("len", gen.Call("split", gen.Str("a,b,,c"), gen.Str(","))), gen.Call("strlen", gen.Int(12345)), gen.Call("strlen", gen.Bin("*", gen.Int(25), gen.Int(4))), gen.Call("str", gen.Call("strlen", gen.Str("h\xc3\xa9llo")))}
+			gen.Call("len", gen.Call("split", gen.Str("a,b,,c"), gen.Str(","))), gen.Call("strlen", gen.Int(12345)), gen.Call("strlen", gen.Bin("*", gen.Int(25), gen.Int(4))), gen.Call("str", gen.Call("strlen", gen.Str("h\xc3\xa9llo"))),
+			// case mapping of letters of several bytes
+			gen.Call("lower", gen.Str("\u00c0B-\u00c9x")), gen.Call("upper", gen.Str("\u00e0b-\u00e9x")), gen.Call("strlen", gen.Call("lower", gen.Str("\u00c0\u0416"))), gen.Call("lower", gen.Bin("+", gen.Str("\u00c9"), gen.Str("A")))}
 		t := calls[r.Intn(len(calls))]
 		switch t.T {
 		case gen.TN:
